@@ -272,9 +272,19 @@ def adversary_tv_stage(ctx):
     trace_files_stage(ctx, "adversary", "adv", ctx.pick(8, 16))
 
 
-def balloon_tv_stage(ctx):
-    """Real Balloon (RocksDB / B+ store, JSON wire, real verifiers) -> traces -> Trace_Balloon.tla"""
-    trace_files_stage(ctx, "balloon", "balloon", ctx.pick(12, 16))
+def balloon_tv(nq, nt):
+    def stage(ctx):
+        """Real Balloon (RocksDB / B+ store, JSON wire, real verifiers) -> traces -> Trace_Balloon.tla"""
+        trace_files_stage(ctx, "balloon", "balloon", ctx.pick(nq, nt))
+    return stage
+
+
+balloon_tv_stage = balloon_tv(10, 16)
+
+
+def wire_tv_stage(ctx):
+    """identity oracle on the real encoders (magnitudes, byte-level) -> Trace_Wire.tla"""
+    trace_files_stage(ctx, "wire", "wire", ctx.pick(4, 16), module="Trace_Wire", cfg=SIMPLE_TRACE_CFG)
 
 
 HISTORY_CFG = """SPECIFICATION Spec
@@ -363,6 +373,7 @@ CONSTANTS
 INVARIANT Complete
 INVARIANT SearchTLemma
 INVARIANT HyperMapSane
+INVARIANT WireFaithful
 INVARIANT Sound
 CHECK_DEADLOCK FALSE
 """
@@ -416,6 +427,12 @@ PLANS = {
     "C02": plan("model_checking", [mc_balloon, adversary_tv_stage], RULE_ADV),
     "C03": plan("model_checking", [mc_history, balloon_tv_stage], RULE_BALLOON),
     "C04": plan("model_checking", [mc_history, balloon_tv_stage], RULE_BALLOON),
+    "C13": plan("model_checking", [mc_balloon, balloon_tv(5, 12), wire_tv_stage, cluster_tv("replicas", 1, 4)],
+                "MC: WireFaithful on the 8-bit universe (every log up to MaxLen, every digest, every query version incl. beyond current, every "
+                "snapshot pair: in-process verdict = verdict of the decoded public form). TV: every membership / consistency proof of the balloon "
+                "and cluster traces is verified before and after the real JSON round trip (fields + verdict, TLC-validated); commands travel through "
+                "msgpack + the raft log store in the cluster runs (replica stores compared). Identity oracle (not TLA+-decided): audit-path keys "
+                "up to 2^63-1, all-ones digests, snapshots / signed batches (JSON), gossip messages (msgpack), answers for versions beyond current"),
     "C14": plan("model_checking", [mc_store, store_tv_stage], RULE_STORE),
     "C15": plan("model_checking", [mc_logstore, logstore_tv_stage], RULE_LOGSTORE),
     "C05": plan("model_checking", [mc_cluster, cluster_tv("replicas", 6, 12), thorough_only(balloon_tv_stage)], RULE_CLUSTER),
@@ -424,7 +441,7 @@ PLANS = {
                 "RaftNode SIGKILLs itself immediately before / after the i-th store write (every i of the workload, both sides, with and "
                 "without a prior raft snapshot), is restarted on the same directories, replays its raft log, finishes the workload and "
                 "answers membership queries for every event; non-trivial = each (workload, crash write, side) experiment"),
-    "C08": plan("model_checking", [mc_cluster, crash_tv("stop", 6, 16), balloon_tv_stage], RULE_CLUSTER + "; clean stop + reopen of a child-process "
+    "C08": plan("model_checking", [mc_cluster, crash_tv("stop", 6, 16), balloon_tv(4, 12)], RULE_CLUSTER + "; clean stop + reopen of a child-process "
                 "node at every prefix length (exit status checked) and close/reopen of the balloon at random points on RocksDB"),
     "C09": plan("model_checking", [mc_cluster, cluster_tv("restore", 4, 16)], RULE_CLUSTER),
     "C10": plan("model_checking", [mc_cluster, cluster_tv("window", 6, 16), cluster_tv("replicas", 2, 6)], RULE_CLUSTER + "; window scenario: the gated store "
